@@ -1026,6 +1026,34 @@ fn gen(r: &mut Rng, tier: Tier, out: &mut Out) {
 			}
 		}
 	}
+	// --- 1c. managed variants of ONE artifact (DESIGN 11.1c (vii); seed C19-I was missed): the root's dependency management holds two
+	//         entries for `lib` that differ only in (type, classifier) - every ordered pair of five spellings, different versions and
+	//         scopes - and the root depends on `lib` in each of the five spellings with version and scope omitted: the entry that fills
+	//         them in is the one with the same (group, artifact, classifier, type), whatever precedes it
+	let variants: [(Option<&str>, Option<&str>); 5] = [(None, None), (None, Some("sources")), (Some("test-jar"), None), (Some("test-jar"), Some("tests")), (Some("jar"), Some("x"))];
+	let vdep = |v: Option<&str>, (t, c): (Option<&str>, Option<&str>), scope: Option<&str>| GDep { g: "sc".into(), a: "lib".into(), v: v.map(|s| s.to_owned()),
+		t: t.map(|s| s.to_owned()), c: c.map(|s| s.to_owned()), scope: scope.map(|s| s.to_owned()), optional: None };
+	for (i, m1) in variants.iter().enumerate() {
+		for (j, m2) in variants.iter().enumerate() {
+			if i == j { continue; }
+			for d in variants.iter() {
+				let root = lib("root", vec![vdep(None, *d, None)], vec![vdep(Some("2"), *m1, Some("runtime")), vdep(Some("1"), *m2, Some("compile"))]);
+				let maven = "invalid://sc.example/m";
+				let mut docs = vec![(format!("{maven}/sc/root/1/root-1.pom"), Doc::Pom(root))];
+				for v in ["1", "2"] {
+					let mut p = lib("lib", vec![], vec![]);
+					p.v = Some(v.to_owned());
+					docs.push((format!("{maven}/sc/lib/{v}/lib-{v}.pom"), Doc::Pom(p)));
+				}
+				let us = Sexp::list(docs.iter().map(|(n, p)| Sexp::list(vec![Sexp::str(n), p.to_sexp()])).collect());
+				let rs = Sexp::list(vec![Sexp::list(vec![Sexp::str("sc"), Sexp::str(maven)])]);
+				let roots = Sexp::list(vec![Sexp::list(vec![GCoord { g: "sc".into(), a: "root".into(), v: "1".into(), c: None, t: "jar".into() }.to_sexp(), Sexp::tag("compile")])]);
+				out.op("mvn-resolve", &[us.clone(), rs.clone(), roots.clone()]);
+				out.op("oracle-resolve-spec", &[us, rs, roots]);
+				out.stats.hit("managed-variants:exhaustive");
+			}
+		}
+	}
 	// --- 2. label forests: mediation, retain order, traversal
 	let rounds = if thorough { 20000 } else { 600 };
 	for i in 0..rounds {
